@@ -483,7 +483,7 @@ func c12Run(w *verifrt.World, tier Tier) *RunResult {
 
 func init() {
 	register(&Check{
-		ID: "C12", Level: "exploration", Run: c12Run,
+		ID: "C12", Level: "exploration", Run: c12Run, AgedWorker: true,
 		Runs:       [2]int{30000, 1200000},
 		MaxSeconds: [2]int{90, 1500},
 		Rule: "one run = 2-6 @unconditionalMatch rules (plus chains) in one phase whose transformation lists are prefixes of a drawn family plus optional tails, over static targets with selectors / exclusions / regex keys that shift positions between rules and (1/3 of runs) targets whose content changes inside the phase (MATCHED_VAR*, RULE, counts, TX), on a request with repeated names and values. " +
